@@ -258,10 +258,11 @@ func stopConcurrent(run *ev.Run, rng *rand.Rand, trials int) {
 		running := trial%2 == 0
 		var atk *vegeta.Attacker
 		var pacer *gatePacer
+		var rt *gateTransport
 		var results <-chan *vegeta.Result
 		if running {
 			pacer = &gatePacer{}
-			rt := &gateTransport{}
+			rt = &gateTransport{}
 			tg := &recTargeter{targets: defaultTargets()}
 			atk = vegeta.NewAttacker(vegeta.Client(&http.Client{Transport: rt}), vegeta.Workers(2), vegeta.MaxWorkers(4))
 			results = atk.Attack(tg.Targeter(), pacer, 0, "stopconc")
@@ -292,15 +293,34 @@ func stopConcurrent(run *ev.Run, rng *rand.Rand, trials int) {
 		close(start)
 		wg.Wait()
 		if running {
-			// let the attack end: the loop sees the stop signal once Pace returns
-			for {
+			// let the attack end: the loop sees the stop signal once Pace returns. The pacer was never
+			// answered before, Stop has been called and the pacer now says stop as well: no hit can
+			// start any more and the channel is closed. (Bounded, so that an attack that goes on
+			// regardless cannot hang the monitor.)
+			ended, hits := false, 0
+			for iter := 0; iter < 2000000 && !ended; iter++ {
 				if p := pacer.Pending(); p != nil {
-					p.decide <- paceDecision{0, true}
-					break
+					select {
+					case p.decide <- paceDecision{0, true}:
+					default:
+					}
 				}
-				runtime.Gosched()
+				if _, ok := rt.Release(false, rtOutcome{err: errInjected}); ok {
+					hits++
+				}
+				select {
+				case _, ok := <-results:
+					ended = !ok
+				default:
+					runtime.Gosched()
+				}
 			}
-			for range results {
+			if hits > 0 || !ended {
+				run.Violate("C02/hit-after-stop/stopconc", fmt.Sprintf("Stop() was called %d times while the attack waited for its pacer's first answer, then the pacer said stop: %d hits reached the transport afterwards, channel closed: %v", n, hits, ended),
+					map[string]any{"stop_calls": n, "hits_after_stop": hits, "channel_closed": ended})
+				if !ended {
+					return // the attack is beyond help; its goroutines stay behind
+				}
 			}
 		}
 		pops := make([]porcupine.Operation, n)
@@ -531,6 +551,16 @@ func runStress(run *ev.Run, sc stressCase, filter string) {
 			}
 			return
 		}
+		if sc.PacerStop > 0 && pacer.calls.Load() > int64(sc.PacerStop)+1000 {
+			// the pacer has said stop (and keeps saying it): it is not to be asked again, let alone a thousand times
+			viol("C02", "not-ended-after-pacer-stop", "stress", fmt.Sprintf("the pacer says stop from call %d on, yet it has been consulted %d times and the attack goes on", sc.PacerStop, pacer.calls.Load()), nil)
+			atk.Stop()
+			select {
+			case <-consumerDone:
+			case <-time.After(20 * time.Second):
+			}
+			return
+		}
 		if polls%200 != 199 {
 			time.Sleep(200 * time.Microsecond)
 			continue
@@ -609,7 +639,11 @@ func runStress(run *ev.Run, sc stressCase, filter string) {
 		viol("C02", "stop-return", "stress-none-true", fmt.Sprintf("Stop was the only cause of the end, yet %d calls reported true", stopTrue.Load()), nil)
 	}
 	// leak check at quiescence
-	q, ok := waitQuiescent(40000, nil)
+	q, ok, spinning := waitQuiescentOrSpinning(500)
+	if spinning != "" {
+		viol("C02", "goroutine-leak", "stress-still-running", "a goroutine of the attack keeps running after the channel was closed (two windows of 500 polls)", map[string]any{"goroutines": tail(spinning, 3000)})
+		return
+	}
 	if !ok {
 		run.Inconclusive("no quiescent state after a stress attack")
 		return
@@ -718,7 +752,9 @@ func runDual(run *ev.Run, rng *rand.Rand) {
 			}
 		}
 	}
-	if q, ok := waitQuiescent(40000, nil); !ok {
+	if q, ok, spinning := waitQuiescentOrSpinning(500); spinning != "" {
+		run.Violate("C02/goroutine-leak/several-attacks-one-attacker", fmt.Sprintf("%s: a goroutine of the attacks keeps running after all channels were closed", b), map[string]any{"case": desc, "goroutines": tail(spinning, 3000)})
+	} else if !ok {
 		run.Inconclusive("no quiescent state after attacks on one Attacker")
 	} else if q.VegetaGs != 0 {
 		run.Violate("C02/goroutine-leak/several-attacks-one-attacker", fmt.Sprintf("%s: %d goroutines of the attacks are left after all channels were closed", b, q.VegetaGs), map[string]any{"case": desc, "goroutines": describeGs(q.Gs)})
